@@ -7,6 +7,7 @@ import (
 	"fmt"
 	"go/ast"
 	"go/types"
+	"regexp"
 	"strconv"
 	"strings"
 	"unicode"
@@ -121,7 +122,11 @@ type ContractDB struct {
 	axioms map[string][]*Clause
 	pkgs   map[string]*packages.Package
 	errors []string
+	// startedNames: the functions named in some started(X) term; only their go statements are counted
+	startedNames map[string]bool
 }
+
+var startedRe = regexp.MustCompile(`started\(([A-Za-z0-9_$.]+)\)`)
 
 func NewContractDB() *ContractDB {
 	return &ContractDB{externs: map[string]*FuncContract{}, funcs: map[string]*FuncContract{}, types: map[string]*TypeContract{}, specs: map[string]*SpecFunc{}, pkgs: map[string]*packages.Package{}, axioms: map[string][]*Clause{}}
@@ -174,6 +179,12 @@ func (db *ContractDB) LoadPackage(p *packages.Package) {
 		for _, cg := range file.Comments {
 			for _, c := range cg.List {
 				if strings.HasPrefix(c.Text, "//@") {
+					for _, m := range startedRe.FindAllStringSubmatch(stripComment(c.Text[3:]), -1) {
+						if db.startedNames == nil {
+							db.startedNames = map[string]bool{}
+						}
+						db.startedNames[m[1]] = true
+					}
 					lines = append(lines, srcLine{text: c.Text[3:], line: p.Fset.Position(c.Pos()).Line})
 				}
 			}
